@@ -118,7 +118,7 @@ func main() {
 		}
 		os.Stdout.Write(props.Manifest(na))
 	case "dump":
-		p, err := eng.Load(repo, nil, dumpPatterns()...)
+		p, err := eng.Load(repo, envOverlay(repo), dumpPatterns()...)
 		if err != nil {
 			fmt.Println(err)
 			os.Exit(1)
@@ -130,7 +130,7 @@ func main() {
 			}
 		}
 	case "list":
-		p, err := eng.Load(repo, nil, dumpPatterns()...)
+		p, err := eng.Load(repo, envOverlay(repo), dumpPatterns()...)
 		if err != nil {
 			fmt.Println(err)
 			os.Exit(1)
@@ -142,7 +142,7 @@ func main() {
 			}
 		}
 	case "callers":
-		p, err := eng.Load(repo, nil, dumpPatterns()...)
+		p, err := eng.Load(repo, envOverlay(repo), dumpPatterns()...)
 		if err != nil {
 			fmt.Println(err)
 			os.Exit(1)
@@ -286,4 +286,14 @@ func argsStr(c *ssa.CallCommon) string {
 		a = append(a, eng.Expr(x))
 	}
 	return "(" + strings.Join(a, "; ") + ")"
+}
+
+// envOverlay: authoring aid — OBSA_OVERLAY_DIR also applies to dump/list/callers.
+func envOverlay(repo string) map[string][]byte {
+	if d := os.Getenv("OBSA_OVERLAY_DIR"); d != "" {
+		if ov, err := overlayFromDir(repo, d); err == nil {
+			return ov
+		}
+	}
+	return nil
 }
